@@ -239,7 +239,13 @@ NoAdmitAfterLossStrict == obs.latched => obs.adm.n = 0
 UnaMonotone == [][\A e \in Ends : SDiff(k'[e].snd_una, k[e].snd_una) >= 0 /\ SDiff(k'[e].rcv_nxt, k[e].rcv_nxt) >= 0]_vars
 
 (* C02 / C03: after healing everything written is delivered and both backlogs return to zero within the bound *)
-DrainsWithinBound == healed.on => (Drained \/ elapsed - healed.at <= healed.bound)
+(* known finding C02/Drained_AckedHeadLingers (see KcpObs): everything delivered, nothing queued, only segments that carry the *)
+(* acked mark are left in a send buffer and no packet that would carry the covering una is left to be sent. The class is      *)
+(* excluded so that TLC goes on exploring; DrainsWithinBoundStrict is the clause as stated.                                  *)
+OnlyAckedLeft == /\ \A e \in Ends : /\ rd[Peer(e)].off = k[e].woff /\ k[e].snd_queue = <<>>
+                                      /\ \A i \in 1..Len(k[e].snd_buf) : k[e].snd_buf[i].acked = 1
+DrainsWithinBound == healed.on => (Drained \/ OnlyAckedLeft \/ elapsed - healed.at <= healed.bound)
+DrainsWithinBoundStrict == healed.on => (Drained \/ elapsed - healed.at <= healed.bound)
 (* C03: while the reader is paused nothing is lost and buffering stays within the C04 bounds (WindowDiscipline, Prefix) *)
 
 (* projection compared with the implementation after every step *)
